@@ -67,6 +67,16 @@ def gen_case(D, max_n=8):
             'sched': None, 'sched2': None, 'salt': D.int(0, 20)}
     if retry:
         case['rerun'] = None
+        if n >= 1 and not timeout and D.bool(0.3):
+            # the retries are used up by an item that always fails; the task
+            # is then rerun (reset on or off) and the retry policy must
+            # apply to the new run again: the item fails once more and
+            # succeeds on the retry
+            bad = D.int(0, n - 1)
+            case['items'] = {str(bad): ['errn', retry + 1,
+                                        'always-%d' % bad]}
+            case['rerun'] = D.choice(['reset', 'noreset'])
+            case['retry_rerun'] = bad
     if sub and items and D.bool(0.5):
         # rerun the failed task *inside* each failed child sub-workflow
         # instead of the with-items task itself
@@ -280,6 +290,13 @@ def check_case(case, stats=None):
         items.update(case.get('rerun_items') or {})
         if case['sub']:
             items.clear()
+        if case.get('retry_rerun') is not None:
+            # attempts are counted per item across the whole history: the
+            # bad item fails the first attempt of the new run only
+            bad = case['retry_rerun']
+            items.clear()
+            items[str(bad)] = ['errn', sim.W.nact.get(('w', bad), 0) + 1,
+                               'again-%d' % bad]
         reset = case['rerun'] == 'reset'
         if case['sub']:
             # new attempt: nothing is "bad" any more
@@ -297,11 +314,21 @@ def check_case(case, stats=None):
         new_idx = sorted(_index(case, k) for k in kids2
                          if k['id'] not in before)
         want = list(range(n)) if reset else failed_idx
-        if not case['sub'] and new_idx != want:
+        if case.get('retry_rerun') is not None:
+            t2 = [t for t in snap['task'].values()
+                  if t['name'] == 'w' and t['wf_ex_id'] == wid][0]
+            acc = sorted(_index(case, k) for k in kids2
+                         if k.get('accepted') and k['state'] == 'SUCCESS')
+            if t2['state'] != 'SUCCESS' or acc != list(range(n)):
+                viol.append({'kind': 'retry-policy-not-applied-to-the-rerun',
+                             'detail': {'reset': reset, 'state': t2['state'],
+                                        'accepted_success': acc, 'n': n,
+                                        'retry': case['retry']}})
+        elif not case['sub'] and new_idx != want:
             viol.append({'kind': 'rerun-executed-wrong-items',
                          'detail': {'reset': reset, 'executed': new_idx,
                                     'expected': want}})
-        if not case['sub']:
+        if not case['sub'] and case.get('retry_rerun') is None:
             viol.extend(_final_checks(case, snap, wid, items, phase=2))
     for e in common.undeclared_errors(_Res(), server=True):
         viol.append({'kind': 'undeclared-error',
